@@ -701,7 +701,7 @@ def run(ctx):
             cases.append(case_of(chunks, disp))
         res.count('exhaustive-segmentation streams')
     # generated streams
-    for i in range(ctx.budget(1100, 40000)):
+    for i in range(ctx.budget(2500, 40000)):
         real = rng.random() < 0.2
         stream = gen_stream(rng, real, big)
         disp = {'kind': 'real', 'nan': rng.random() < 0.1} if real else {'kind': 'stub', 'plan': gen_plan(rng)}
